@@ -391,6 +391,19 @@ class Walker:
                         if f is not None:
                             out.append((False, dict(env, **{var.id: f}), True, None))
                         return out
+        if isinstance(test, ast.BinOp) and isinstance(test.op, (ast.BitAnd, ast.Mod)) and isinstance(test.left, ast.Call) and isinstance(test.left.func, ast.Name) \
+                and test.left.func.id == "len" and len(test.left.args) == 1 and isinstance(test.left.args[0], ast.Name) \
+                and isinstance(env.get(test.left.args[0].id), TextV) and isinstance(test.right, ast.Constant) \
+                and test.right.value == (1 if isinstance(test.op, ast.BitAnd) else 2):
+            nm = test.left.args[0].id
+            t_ = env[nm]
+            from dataclasses import replace as _rep
+            out = []
+            if t_.parity in (None, "odd"):
+                out.append((True, dict(env, **{nm: _rep(t_, parity="odd")}), True, "f" if t_.parity is None else None))
+            if t_.parity in (None, "even"):
+                out.append((False, dict(env, **{nm: _rep(t_, parity="even")}), True, "ff" if t_.parity is None else None))
+            return out
         if isinstance(test, ast.Name) and isinstance(env.get(test.id), IntV):
             t, f = _split_int(env[test.id], ast.NotEq(), 0)
             out = []
